@@ -18,7 +18,22 @@
     the statement below (C08_notified_partial). *)
 From Coq Require Import List Arith Bool ZArith.
 From P9V Require Import Refs.Model Refs.PathFS Refs.Cases Refs.RefProofs Refs.FenceProofs.
+From P9V Require Refs.TreeInv Refs.TreeStep.
 Import ListNotations.
+
+(** C08_tree_inv, for every history of requests from the initial state and every backend (no assumption):
+    childRefs and childRefNames agree and the sets are duplicate free; a registered fidRef is live, has a
+    parent whose node is the registering node and its own node is that node's childNodes[name]; a live,
+    non-deleted fidRef with a parent is registered in its parent's node; ids are in range, xattr fidRefs
+    have no parent; a node is the child of at most one (node, name) and the root of none ([tree_ok],
+    Refs/TreeInv.v; proof: Refs/TreeProofs.v, Refs/TreeStep.v).  "deleted is downward closed" and "no
+    panic of the path-tree code" ([tree_closed]) need an acyclic childNodes graph (assumption B2) and are
+    NOT proved: with a backend that lets a directory move into its own subtree the graph becomes cyclic
+    and notifyDelete can mark the target directory of a later rename itself. *)
+Theorem C08_tree_inv : forall B (bstep : B -> bcall -> B * bans) ops (b : B),
+  TreeInv.tree_ok B (snd (run B bstep ops (init_state B b))).
+Proof. exact TreeStep.tree_inv_history. Qed.
+Print Assumptions C08_tree_inv.
 
 (** Tlopen, Tlcreate, Tmkdir/Tmknod/Tsymlink, Tsetattr, Treaddir, Tunlinkat, Txattrwalk, Txattrcreate *)
 Theorem C08_fenced : forall B bstep o c fid r s,
